@@ -32,6 +32,19 @@ fn connected_addrs(nw: &NetWorld) -> Vec<SocketAddr> {
     s.clients_id().into_iter().filter_map(|id| s.client_addr(id)).collect()
 }
 
+/// History model of half-open handshakes: a challenge sent to `from` opens one, a ClientConnected reported for it closes it.
+fn note_handshake(nw: &NetWorld, challenged: &mut std::collections::HashSet<SocketAddr>, from: SocketAddr, out: &SrvOut) {
+    match out {
+        SrvOut::Send { did, .. } if nw.pool[*did].kind == 2 => {
+            challenged.insert(from);
+        }
+        SrvOut::Connected { addr, .. } => {
+            challenged.remove(addr);
+        }
+        _ => {}
+    }
+}
+
 /// Judge the server's answer to one datagram from an address without a completed handshake.
 fn judge(nw: &NetWorld, from: SocketAddr, input_len: usize, out: &SrvOut, valid: bool, what: &str) -> Outcome {
     let reply: Option<(SocketAddr, usize)> = match out {
@@ -63,7 +76,7 @@ impl Property for C19 {
         "exploration"
     }
     fn rule(&self) -> String {
-        "A case = secure server with max_clients 1-3 in states empty / pending present / full / busy, up to 6 clients (tokens may share a client id) holding good, foreign-key, foreign-protocol, wrong-host and short-lived tokens; honest handshake steps build the state; adversarial presentations take any request or response datagram ever emitted by a not-yet-connected client and present it from its own or another unproven address exactly, padded to any length up to 1400, truncated, bit-flipped, prefix-modified or repeated, plus random bytes, plus responses in an authentic envelope (sealed with the sender's own key) that echo random bytes or the challenge issued to another client, also at pending addresses of a full server; sessions are ended by the server, by the client's disconnect packet or by a time-out (the address is unproven again, the token stays bound to it); the clock is stepped past token expiry. Oracle per datagram from an address that is not connected: the result is None, or one datagram to the same address strictly shorter than the input (PacketToSend or the payload inside ClientConnected); inputs that carry neither a valid token (by provenance: unmodified or only padded request minted with the server's key, protocol, host and unexpired, and not already used - answered - from a different address) nor a valid response (unmodified response of the client pending at that address) get None; never a Payload or a ClientDisconnected. Non-trivial: the input decodes as a request or response kind and is >= 18 bytes. Distinct = hash of the decoded operation trace.".into()
+        "A case = secure server with max_clients 1-3 in states empty / pending present / full / busy, up to 6 clients (tokens may share a client id) holding good, foreign-key, foreign-protocol, wrong-host and short-lived tokens; honest handshake steps build the state; adversarial presentations take any request or response datagram ever emitted by a not-yet-connected client and present it from its own or another unproven address exactly, padded to any length up to 1400, truncated, bit-flipped, prefix-modified or repeated, plus random bytes, plus responses in an authentic envelope (sealed with the sender's own key) that echo random bytes or the challenge issued to another client, also at pending addresses of a full server; sessions are ended by the server, by the client's disconnect packet or by a time-out (the address is unproven again, the token stays bound to it); the clock is stepped past token expiry. Oracle per datagram from an address that is not connected: the result is None, or one datagram to the same address strictly shorter than the input (PacketToSend or the payload inside ClientConnected); inputs that carry neither a valid token (by provenance: unmodified or only padded request minted with the server's key, protocol, host and unexpired, and not already used - answered - from a different address) nor a valid response (unmodified response of the client pending at that address, which by the history requires a challenge sent to that address since the last ClientConnected reported for it - a response of a finished session presented again is not one) get None; never a Payload or a ClientDisconnected. Non-trivial: the input decodes as a request or response kind and is >= 18 bytes. Distinct = hash of the decoded operation trace.".into()
     }
     fn assumptions(&self) -> Vec<String> {
         vec!["'valid' is decided by provenance and the harness's knowledge of key, protocol id, host list and expiry".into()]
@@ -72,7 +85,7 @@ impl Property for C19 {
         PbtCfg { cases: tier.pick(400_000, 8_000_000), max_len: tier.pick(500, 1500), shrink_ms: 120_000 }
     }
     fn required_labels(&self) -> Vec<&'static str> {
-        vec!["valid_request", "padded_request", "valid_response", "invalid_token_request", "server_full", "denied_reply", "challenge_reply", "connected_reply", "expired_request", "request_other_address", "bound_token_other_address", "shared_client_id", "forged_response_at_pending", "forged_response_full_server", "session_ended"]
+        vec!["valid_request", "padded_request", "valid_response", "invalid_token_request", "server_full", "denied_reply", "challenge_reply", "connected_reply", "expired_request", "request_other_address", "bound_token_other_address", "shared_client_id", "forged_response_at_pending", "forged_response_full_server", "session_ended", "stale_response_replayed"]
     }
     fn run_choices(&self, ctx: &mut Ctx) -> Outcome {
         let mut nw = NetWorld::new(ctx.src.u16() as u64);
@@ -118,6 +131,9 @@ impl Property for C19 {
         let mut ops = 0;
         // connect token (by owner) -> the address whose request with it was first answered (the server binds a token to it)
         let mut bound: std::collections::HashMap<usize, SocketAddr> = Default::default();
+        // addresses whose request was answered with a challenge since the last ClientConnected reported for them: only there can a
+        // response be 'the response of the client pending at that address' (decided from the history, not by asking the server)
+        let mut challenged: std::collections::HashSet<SocketAddr> = Default::default();
         while !ctx.src.exhausted() && ops < max_ops {
             ops += 1;
             let op = match ctx.src.weighted(&[10, 14, 3, 3, 5, 2]) {
@@ -138,8 +154,9 @@ impl Property for C19 {
                             if !proven {
                                 let expired = (nw.now - start).as_secs() >= 2 && kinds[c] == TokKind::ShortLived;
                                 let valid = matches!(kinds[c], TokKind::Good | TokKind::ShortLived) && !expired;
-                                judge(&nw, d.src, d.bytes.len(), &out, valid || d.kind == 3, "honest step")?;
+                                judge(&nw, d.src, d.bytes.len(), &out, valid || (d.kind == 3 && challenged.contains(&d.src)), "honest step")?;
                             }
+                            note_handshake(&nw, &mut challenged, d.src, &out);
                             match &out {
                                 SrvOut::Send { did: r, .. } | SrvOut::Connected { did: r, .. } => {
                                     let b = nw.pool[*r].bytes.clone();
@@ -198,7 +215,10 @@ impl Property for C19 {
                     let pending_here = nw.servers[0].server.verif_pending_addrs().contains(&from);
                     // a mutated prefix that keeps the request kind (only the unused sequence-length nibble changed) is still the same request
                     let benign_prefix = d.kind == 0 && modified && bytes.len() == d.bytes.len() && bytes[1..] == d.bytes[1..] && bytes[0] & 0x0F == 0;
-                    let valid = if d.kind == 0 { good_token && (!modified || benign_prefix) } else { !modified && pending_here && from_idx == owner };
+                    let valid = if d.kind == 0 { good_token && (!modified || benign_prefix) } else { !modified && pending_here && challenged.contains(&from) && from_idx == owner };
+                    if d.kind == 3 && !modified && from_idx == owner && !challenged.contains(&from) {
+                        ctx.label("stale_response_replayed");
+                    }
                     if d.kind == 0 {
                         if valid && how.starts_with("padded") {
                             ctx.label("padded_request");
@@ -221,6 +241,7 @@ impl Property for C19 {
                         _ => None,
                     };
                     judge(&nw, from, bytes.len(), &out, valid, &format!("{how} of datagram {i} (kind {}) of client {owner} ({:?}) presented from address {from_idx}", d.kind, kinds[owner]))?;
+                    note_handshake(&nw, &mut challenged, from, &out);
                     if d.kind == 0 && valid {
                         match bound.get(&owner) {
                             Some(a) if *a != from => {
